@@ -349,12 +349,14 @@ for prop, verdict, hang_judged, cfgf, specs in [
     ("C01", None, False, _tick_cfg, [("rhombus", lambda: C.rhombus(True)), ("oneof_basic", C.oneof_basic),
                                      ("switch_shared_case", C.switch_shared_case)]),
     ("C02", _nothing, True, _tick_cfg, [("switch_shared_case", C.switch_shared_case), ("oneof_depth2", lambda: C.oneof_depth(2)),
-                                        ("oneof_diamond", C.oneof_diamond), ("rec_simple", lambda: C.rec_simple(1, False, True))]),
+                                        ("oneof_diamond", C.oneof_diamond), ("rec_simple", lambda: C.rec_simple(1, False, True)),
+                                        ("two_chains", C.two_chains), ("rec_in_oneof_chain", C.rec_in_oneof_chain)]),
     ("C03", _c03, False, _tick_cfg, [("rhombus", lambda: C.rhombus(True)), ("rec_inner_start", lambda: C.rec_inner_start(1))]),
     ("C04", _c04, False, _tick_cfg, [("switch_shared_case", C.switch_shared_case), ("shared_scopes", shared_scopes)]),
     ("C05", _c05, False, _tick_cfg, [("oneof_diamond", C.oneof_diamond), ("three_fail", three_fail)]),
     ("C09", _c09, False, _tick_cfg, [("switch_shared_case", C.switch_shared_case), ("switch_case_also_input", C.switch_case_also_input)]),
-    ("C10", _c10, False, _tick_cfg, [("oneof_depth2", lambda: C.oneof_depth(2)), ("oneof_diamond", C.oneof_diamond)]),
+    ("C10", _c10, False, _tick_cfg, [("oneof_depth2", lambda: C.oneof_depth(2)), ("oneof_diamond", C.oneof_diamond),
+                                     ("rec_in_oneof_chain", C.rec_in_oneof_chain)]),
     ("C11", _c11, False, _tick_cfg, [("rec_inner_start", lambda: C.rec_inner_start(1)), ("rec_simple", lambda: C.rec_simple(2, True))]),
     ("C14", _c14, False, _tick_events_cfg, [("rhombus", lambda: C.rhombus(True)), ("oneof_basic", C.oneof_basic)]),
     ("C19", _c19, False, _tick_store_cfg, [("rhombus", lambda: C.rhombus(False)), ("switch_basic", lambda: C.switch_basic(False, False))]),
@@ -568,7 +570,7 @@ ORDER_T = [("switch_shared_case", C.switch_shared_case), ("switch_two_deciders",
            ("switch_two_deciders_deep", lambda: C.switch_two_deciders(1)), ("switch_case_also_input", C.switch_case_also_input),
            ("oneof_sibling", C.oneof_sibling), ("oneof_chained", C.oneof_chained), ("oneof_diamond", C.oneof_diamond),
            ("oneof_shared_inflight", C.oneof_shared_inflight), ("rec_inner_start", lambda: C.rec_inner_start(1)),
-           ("rec_side_input", C.rec_side_input), ("fan", C.fan)]
+           ("rec_side_input", C.rec_side_input), ("fan", C.fan), ("two_chains", C.two_chains)]
 for prop in ("C01", "C02", "C03", "C04", "C09", "C10"):
     for nm, f in ORDER_T:
         if prop == "C09" and not nm.startswith("switch"):
